@@ -5,7 +5,7 @@ import SFModel.Drv.Order
 namespace SF.Drv
 open SF SExp SF.Group
 
-def ofGroups (gs : List (String × List Nat)) : SExp :=
+private def ofGroups (gs : List (String × List Nat)) : SExp :=
   .list (gs.map fun g => .list [.atom g.1, ofNats g.2])
 
 def groupOps : List SExp → Option String
